@@ -49,7 +49,10 @@ class InitMethod(MethodDescriptor):
                 "__spec_class_initializing__", True, force=True, skip_invalidation=True
             )
             for parent in reversed(spec_cls.mro()[1:]):
-                parent_metadata = getattr(parent, "__spec_class__", None)
+                # Only classes that are spec classes themselves: a plain class
+                # in between merely inherits its parent's metadata (and
+                # constructor, which must not be run a second time).
+                parent_metadata = vars(parent).get("__spec_class__", None)
                 if parent_metadata:
                     parent_kwargs = {}
                     for attr in parent_metadata.attrs:
